@@ -113,6 +113,12 @@ def cases(tier, rng):
         # containers read into a pre-sized vector
         yield mk(d, "c2,r1", f"{hexs(d[:8])}:8:{n},09:9:{n}", "typed-container")
         yield mk(d, "c4", f"err:0:{n}", "typed-container-short")
+        # strings of 2- and 4-byte characters consume n * sizeof(CharT) bytes, and are refused whole when those are not there
+        yield mk(d, "W3,r1", f"{hexs(d[:6])}:6:{n},{hexs(d[6:7])}:7:{n}", "typed-wide-string")
+        yield mk(d, "r1,W2,X1,r1", f"{hexs(d[:1])}:1:{n},{hexs(d[1:5])}:5:{n},{hexs(d[5:9])}:9:{n},{hexs(d[9:10])}:10:{n}", "typed-wide-string")
+        yield mk(d, "X2,r1", f"{hexs(d[:8])}:8:{n},{hexs(d[8:9])}:9:{n}", "typed-wide-string")
+        yield mk(d[:5], "W3", "err:0:5", "typed-wide-string-short")
+        yield mk(d[:7], "X2,r1", f"err:0:7,{hexs(d[:1])}:1:7", "typed-wide-string-short")
         # NUL-terminated strings: bounded, unbounded, missing terminator
         s = b"ab\x00cd\x00ef"
         yield mk(s, "z9,z9", f"6162:3:{len(s)},6364:6:{len(s)}", "typed-nts")
